@@ -36,7 +36,7 @@ from ..evidence import Run, canon_hash
 
 PID = "C10"
 SHARDS = {"quick": 6, "thorough": 16}
-SHARD_TIMEOUT = {"quick": 400, "thorough": 1700}
+SHARD_TIMEOUT = {"quick": 400, "thorough": 9000}  # TEMP-TRIAGE
 N_PER_TYPE = {"quick": 48, "thorough": 900}
 
 
@@ -56,6 +56,12 @@ def new_run():
          "numpy), coerce of the one-row slice (polars)",
          "a null among the failure cases of a type that can hold nulls is not "
          "judged for pandas (statement and quantifier disagree), judged for polars",
+         "polars: the rows holding a null are not judged when polars has no "
+         "cast at all between the column's dtype and T (it lets all-null "
+         "columns through, so the one-row reference is an artefact)",
+         "the value returned by coerce_value is compared with the container "
+         "result only when it is a value of T (numpy answers "
+         "np.timedelta64(pd.Timedelta) in microseconds: not judged)",
          "pandera.engines.pyarrow_engine is imported up front so that both "
          "copies of the Arrow* classes are enumerated deterministically"])
 
@@ -137,8 +143,10 @@ def mech(kind, w):
             return "polars-category-try_coerce-raises-raw-errors"
         if kind == "failure-cases-include-null-input":
             return "polars-failure-cases-include-null-inputs"
-        if short == "Decimal" and kind in F2_KINDS:
-            # coerce casts via Float64, the failure cases come from a direct cast
+        if short == "Decimal" and kind in F2_KINDS and in_dtype.startswith(
+                ("Duration", "Time", "Date", "Boolean")):
+            # coerce casts via Float64, the failure cases come from a direct
+            # cast, which polars does not have for temporal / boolean columns
             return "polars-decimal-failure-cases-use-another-cast-route-than-coerce"
     if kind == "try_coerce-raised-non-ParserError":
         where = w.get("where", "")
@@ -248,10 +256,14 @@ def fc_values(fc, frame=False):
         return [], []
     if isinstance(fc, pd.DataFrame):
         raw = fc["failure_case"].tolist()
-        if frame and any(isinstance(v, dict) for v in raw):
-            # frame-level report: one dict {column: cell} per row
-            return [G.vrepr(x) for v in raw
-                    for x in (v.values() if isinstance(v, dict) else [v])], None
+        if frame and "column" in fc.columns and \
+                any(c == "failure_case" for c in fc["column"].tolist()):
+            # frame-level report of numpy_pandas_coerce_failure_cases: one dict
+            # {column: cell} per row, under the pseudo column "failure_case"
+            # (a dict-valued *cell* of a per-cell report is a value, not a row)
+            return [G.vrepr(x) for v, c in zip(raw, fc["column"].tolist())
+                    for x in (v.values() if c == "failure_case" and isinstance(v, dict)
+                              else [v])], None
         vals = [G.vrepr(v) for v in raw]
         idx = [G.vrepr(i) for i in fc["index"].tolist()] if "index" in fc else None
         return vals, idx
@@ -420,7 +432,13 @@ def pandas_success(run, eng, t, kind, extra, c, out, base):
                           output=K._brief(out)))
                 continue
             okv, cv = (False, None) if kind == "object" else safe(t.coerce_value, v)
-            if okv and not G.is_null(cv):
+            if okv and not G.is_null(cv) and not _same_numpy_type(t, cv):
+                # numpy's scalar constructor answered with another dtype / unit
+                # than T (np.timedelta64(pd.Timedelta) is read as a
+                # datetime.timedelta, in microseconds): not a value of T, and
+                # the statement does not constrain coerce_value's return value
+                run.count("undecided:coerce_value-returned-another-numpy-dtype-than-T")
+            elif okv and not G.is_null(cv):
                 run.count(f"{eng}:S3_vs_coerce_value")
                 if not G.values_equal(cv, want):
                     viol(run, "coerce_value-disagrees-with-coerce",
@@ -441,6 +459,15 @@ def pandas_success(run, eng, t, kind, extra, c, out, base):
             viol(run, "not-idempotent", dict(base, output=K._brief(out),
                                              again=K._brief(out2), diff=d))
     return n + 1
+
+
+def _same_numpy_type(t, cv):
+    """False when coerce_value returned a numpy scalar of another dtype (unit)
+    than the numpy dtype T stands for; True for everything else."""
+    nt = getattr(t, "type", None)
+    if isinstance(nt, np.dtype) and isinstance(cv, np.generic) and nt.kind in "mM":
+        return cv.dtype == nt
+    return True
 
 
 def _null_judgeable(cin, kind):
@@ -740,12 +767,26 @@ def polars_failure(run, t, df, key, cols, err, base):
         run.count("undecided:polars-array-width-depends-on-the-whole-column")
         return 0
     lists = {c: _pl_list(df[c]) for c in cols}
+    null_rows = {i for i in range(df.height) if any(lists[c][i] is None for c in cols)}
+    # polars has no cast at all between some pairs of dtypes, but lets a column
+    # that holds nothing but nulls through: whether a null of such a column
+    # "converts individually" is an artefact of the one-row slice, so the rows
+    # with a null are not judged there
+    okw, _ = safe(lambda: df.lazy().select(
+        pl.col(cols).cast(t.type, strict=False)).collect())
+    skip = set() if okw else {i for i in range(df.height)
+                             if any(G.is_null(lists[c][i]) for c in cols)}
+    if skip:
+        run.count("undecided:null-row-of-a-dtype-pair-polars-cannot-cast")
+        bad_rows = [i for i in bad_rows if i not in skip]
     exp = Counter(tuple(G.vrepr(lists[c][i]) for c in cols) for i in bad_rows)
     if fc is None:
         got = Counter()
     else:
         fcols = [c for c in cols if c in fc.columns] or list(fc.columns)
         got = Counter(tuple(G.vrepr(v) for v in row) for row in fc.select(fcols).rows())
+        if skip:
+            got = Counter({r: n for r, n in got.items() if "<null>" not in r})
     if got != exp:
         extra_rows = got - exp
         only_nulls = bool(extra_rows) and not (exp - got) and all(
@@ -759,9 +800,8 @@ def polars_failure(run, t, df, key, cols, err, base):
         okp, pdf = safe(lambda: po.collect() if isinstance(po, pl.LazyFrame) else po)
         if okp and CHECK_OUTPUT_KEY in pdf.columns and pdf.height == df.height:
             run.count("polars:F2_parser_output_rows")
-            rows = [i for i, v in enumerate(pdf[CHECK_OUTPUT_KEY].to_list()) if not v]
-            null_rows = {i for i in range(df.height)
-                         if any(lists[c][i] is None for c in cols)}
+            rows = [i for i, v in enumerate(pdf[CHECK_OUTPUT_KEY].to_list())
+                    if not v and i not in skip]
             extra, missing = set(rows) - set(bad_rows), set(bad_rows) - set(rows)
             if missing or (extra - null_rows):
                 viol(run, "parser-output-rows-differ-from-unconvertible-rows",
